@@ -1,7 +1,9 @@
 (* C05 — property theorems only: a computation on a table with masked / undefined samples equals the same
    computation on the physically reduced table, up to the renaming of ranks.  No bound on the number of samples. *)
 From Coq Require Import List Arith ZArith QArith Bool Sorted.
-From Gst Require Import lib.QAux C05.Reindex C05.Model C05.Spec C05.Proofs_db.
+From Gst Require Import lib.QAux lib.LinAlgQ C05.Reindex C05.Model C05.Spec C05.Proofs_db.
+From Gst Require C01.Model C01.Proofs C06.Model C06.Spec C12.Model C12.Spec.
+From Gst Require Import C05.Spec_krige C05.Proofs_krige C05.Spec_neigh C05.Proofs_neigh C05.Spec_vario C05.Proofs_vario.
 Import ListNotations.
 Local Open Scope Q_scope.
 
@@ -103,6 +105,117 @@ Theorem C05_targets : forall nold nnew est ts it d,
 Proof. exact run_targets_spec. Qed.
 Print Assumptions C05_targets.
 
+(* ---------------------------------------------------------------------------------------------- kriging (model of C01) *)
+(* [kreduce k] physically removes from the neighbourhood every sample that gives no equation (undefined coordinate or
+   external drift, or no defined variable) together with its covariance oracles.  As soon as one datum is usable the
+   active equations of k are those of the reduced case, renamed by [eqren], and the compressed left-hand side,
+   right-hand side and centred data are THE SAME lists *)
+Theorem C05_krige_system : forall k : C01.Model.kcase,
+  C01.Model.any_data_defined (kreduce k) = C01.Model.any_data_defined k ->
+  C01.Model.active k = map (eqren k) (C01.Model.active (kreduce k)) /\
+  C01.Model.lhs_c (kreduce k) = C01.Model.lhs_c k /\
+  C01.Model.rhs_c (kreduce k) = C01.Model.rhs_c k /\
+  C01.Model.zext (kreduce k) = C01.Model.zext k.
+Proof.
+  intros k H. split; [apply active_kreduce; exact H|]. split; [apply lhs_c_kreduce; exact H|].
+  split; [apply rhs_c_kreduce; exact H|apply zext_kreduce; exact H].
+Qed.
+Print Assumptions C05_krige_system.
+
+(* ... hence kriging fails on both or returns the same weights, dual vector, estimates, variances (no premise:
+   when no datum is usable both are refused by _isAuthorized); the weights belong to the renamed equations *)
+Theorem C05_krige : forall k : C01.Model.kcase,
+  match C01.Model.krige k, C01.Model.krige (kreduce k) with
+  | Some o, Some o' => kout_match k o o'
+  | None, None => True
+  | _, _ => False
+  end.
+Proof. exact krige_kreduce. Qed.
+Print Assumptions C05_krige.
+
+Theorem C05_krige_authorized : forall k : C01.Model.kcase, C01.Model.authorized (kreduce k) = C01.Model.authorized k.
+Proof. exact authorized_kreduce. Qed.
+Print Assumptions C05_krige_authorized.
+
+(* per variable: an undefined value of one variable at a sample gives no equation for that variable (the sample
+   stays for its other variables); a removed sample gives no equation at all *)
+Theorem C05_krige_per_variable : forall (k : C01.Model.kcase) iech ivar,
+  (iech < C01.Model.nech k)%nat -> (ivar < C01.Model.k_nvar k)%nat ->
+  (value_absent k iech ivar -> ~ In (iech + ivar * C01.Model.nech k)%nat (C01.Model.active k)) /\
+  (~ In iech (kkept k) -> ~ In (iech + ivar * C01.Model.nech k)%nat (C01.Model.active k)).
+Proof. intros k iech ivar H1 H2. split; [apply value_absent_no_equation|apply removed_no_equation]; assumption. Qed.
+Print Assumptions C05_krige_per_variable.
+
+(* ---------------------------------------------------------------------------------------------- neighbourhood (model of C06) *)
+(* masked samples and samples without any defined variable are never candidates *)
+Theorem C05_neigh_never_candidate : forall oracle p t (is : nat * C06.Model.sample),
+  nkeep (snd is) = false -> C06.Model.cand_of oracle p t is = None.
+Proof. exact cand_of_removed. Qed.
+Print Assumptions C05_neigh_never_candidate.
+
+(* the candidates of the Db are those of the reduced Db (same distances and sectors, ranks renamed) *)
+Theorem C05_neigh_candidates : forall oracle p t samples,
+  C06.Model.cand_loop oracle p t (C06.Model.enum samples) =
+  map (cren (nkept samples)) (C06.Model.cand_loop oracle p t (C06.Model.enum (nreduce samples))).
+Proof. exact cand_loop_reduce. Qed.
+Print Assumptions C05_neigh_candidates.
+
+(* _moving (with or without the cross-validation exclusion, which is one of the parameters p): the selected ranks are
+   those selected on the reduced Db, renamed; same sorted state; both searches succeed or both fail (the error CODE may
+   differ: "fewer samples than nmini" on the reduced Db where the full one reports "fewer candidates than nmini").
+   No premise on ties: the model's stable sort breaks ties by candidate position, which the removal preserves. *)
+Theorem C05_neigh : forall oracle p t samples,
+  let K := nkept samples in
+  let r := C06.Model.moving oracle p t samples in
+  let r' := C06.Model.moving oracle p t (nreduce samples) in
+  C06.Model.r_ranks r = map (ren K) (C06.Model.r_ranks r') /\
+  C06.Model.r_sorted r = map (stren K) (C06.Model.r_sorted r') /\
+  (C06.Model.r_code r = 0%Z <-> C06.Model.r_code r' = 0%Z).
+Proof. exact moving_reduce. Qed.
+Print Assumptions C05_neigh.
+
+(* the literal order of the code perturbs the distance of the isel-th CANDIDATE by distmax*isel*eps: isel is a position in
+   the candidate list, not a rank in the Db, so the perturbed sort also commutes with the removal, ties included *)
+Theorem C05_neigh_perturbed_sort : forall K eps (r : C06.Model.cand -> Q) l,
+  C06.Model.perturb_sort eps r (map (cren K) l) = map (cren K) (C06.Model.perturb_sort eps (fun c => r (cren K c)) l).
+Proof. exact perturb_sort_ren. Qed.
+Print Assumptions C05_neigh_perturbed_sort.
+
+(* cross-validation = the same search with the exclusion switched on in the parameters, followed by the kriging of
+   the selected samples: C05_neigh (any p, in particular p_xvalid p = true) and C05_krige compose *)
+Theorem C05_xvalid : forall oracle p t samples, C06.Model.p_xvalid p = true ->
+  C06.Model.r_ranks (C06.Model.moving oracle p t samples) =
+  map (ren (nkept samples)) (C06.Model.r_ranks (C06.Model.moving oracle p t (nreduce samples))).
+Proof. intros oracle p t samples _. exact (proj1 (moving_reduce oracle p t samples)). Qed.
+Print Assumptions C05_xvalid.
+
+(* ---------------------------------------------------------------------------------------------- variograms (model of C12) *)
+(* Vario::_calculateGeneralSolution1 without dates: the pairs handed to keepPair are exactly the pairs of the reduced Db *)
+Theorem C05_vario_pairs : forall cf d l,
+  C12.Model.c_dateLoop cf = false -> 0 < C12.Model.d_dpas d -> 0 <= C12.Model.d_tol d ->
+  C12.Model.reached1 cf d l = C12.Model.reached1 cf d (vreduce cf l) /\
+  forall p, In p (C12.Model.reached1 cf d l) -> C12.Model.is_active cf (fst p) = true /\ C12.Model.is_active cf (snd p) = true.
+Proof.
+  intros cf d l H1 H2 H3. split; [apply reached1_reduce; assumption|].
+  intros p Hp. apply (reached1_only_active cf d l p H1 H2 H3 Hp).
+Qed.
+Print Assumptions C05_vario_pairs.
+
+(* the whole result (accumulation, scaling, centring, C(0) patch) for every estimator but Poisson, whose global mean is
+   taken over the first nvar samples of the Db (C12's finding) and therefore depends on which samples are physically there *)
+Theorem C05_vario : forall cf d l,
+  C12.Model.c_dateLoop cf = false -> 0 < C12.Model.d_dpas d -> 0 <= C12.Model.d_tol d -> C12.Model.c_calc cf <> C12.Model.Poisson ->
+  C12.Model.solution1 cf d l = C12.Model.solution1 cf d (vreduce cf l).
+Proof. exact solution1_reduce. Qed.
+Print Assumptions C05_vario.
+
+Theorem C05_vario_drop_selection : forall cf d l,
+  C12.Model.c_dateLoop cf = false -> 0 < C12.Model.d_dpas d -> 0 <= C12.Model.d_tol d ->
+  (forall s, In s l -> C12.Model.is_active cf s = true) ->
+  C12.Model.solution1 cf d l = C12.Model.solution1 (cfg_nosel cf) d l.
+Proof. exact solution1_nosel. Qed.
+Print Assumptions C05_vario_drop_selection.
+
 (* ---------------------------------------------------------------------------------------------- non-vacuity *)
 Definition ex_rows : list row :=
   [ {| r_sel := Some 1; r_w := Some 2;  r_vals := [Some 1; Some 10];  r_verr := [Some 0] |};
@@ -129,3 +242,57 @@ Example C05_targets_nonvacuous :
     [ {| t_active := true; t_cells := [Some 5; Some 0; None] |}; {| t_active := false; t_cells := [Some 6; None; None] |};
       {| t_active := true; t_cells := [None; Some 2; None] |} ].
 Proof. vm_compute. reflexivity. Qed.
+
+(* kriging: 4 samples in the neighbourhood; sample 1 has an undefined coordinate, sample 3 no value *)
+Definition ex_k : C01.Model.kcase :=
+  let m (a : Q) : mat := [[a]] in
+  let smp (x : option Q) (z : option Q) := {| C01.Model.s_coord := [x]; C01.Model.s_z := [z]; C01.Model.s_verr := []; C01.Model.s_fext := [] |} in
+  {| C01.Model.k_nvar := 1; C01.Model.k_monos := [[]]; C01.Model.k_nfex := 0;
+     C01.Model.k_samples := [smp (Some 0) (Some 1); smp None (Some 7); smp (Some 2) (Some 3); smp (Some 5) None];
+     C01.Model.k_means := [0]; C01.Model.k_tcoord := [1]; C01.Model.k_tfext := []; C01.Model.k_flag_verr := false;
+     C01.Model.k_clhs := [ [m 4]; [m 0; m 4]; [m 1; m 0; m 4]; [m (1#2); m 0; m 2; m 4] ];
+     C01.Model.k_crhs := [ [m 2]; [m 0]; [m 2]; [m (1#2)] ];
+     C01.Model.k_c00 := m 4 |}.
+Example C05_krige_nonvacuous :
+  kkept ex_k = [0; 2]%nat /\ C01.Model.active ex_k = [0; 2; 4]%nat /\ C01.Model.active (kreduce ex_k) = [0; 1; 2]%nat /\
+  map (eqren ex_k) [0; 1; 2]%nat = [0; 2; 4]%nat /\
+  C01.Model.any_data_defined (kreduce ex_k) = C01.Model.any_data_defined ex_k /\
+  match C01.Model.krige ex_k, C01.Model.krige (kreduce ex_k) with
+  | Some o, Some o' => C01.Model.o_estim o = C01.Model.o_estim o' /\ C01.Model.o_estim o = [2] /\ C01.Model.o_wgt o = [[1#2]; [1#2]; [-(1#2)]]
+  | _, _ => False
+  end.
+Proof. vm_compute. repeat split; reflexivity. Qed.
+
+(* neighbourhood: sample 1 masked, sample 3 without value; nmaxi = 2 keeps the two closest of the three others *)
+Definition ex_np : C06.Model.params :=
+  {| C06.Model.p_nmini := 1; C06.Model.p_nmaxi := 2; C06.Model.p_nsect := 1; C06.Model.p_nsmax := 0; C06.Model.p_ndim := 2;
+     C06.Model.p_radius := None; C06.Model.p_aniso := false; C06.Model.p_rot := false; C06.Model.p_nd := 2;
+     C06.Model.p_coeffs := []; C06.Model.p_rotmat := []; C06.Model.p_xvalid := false; C06.Model.p_kfold := false;
+     C06.Model.p_hascode := false; C06.Model.p_eps := 1 # 1000000000; C06.Model.p_checkers := [] |}.
+Definition ex_ns (a : bool) (x y : Q) (v : option Q) : C06.Model.sample :=
+  {| C06.Model.s_active := a; C06.Model.s_coords := [x; y]; C06.Model.s_vars := [v]; C06.Model.s_code := None |}.
+Definition ex_nsamples : list C06.Model.sample :=
+  [ex_ns true 3 0 (Some 1); ex_ns false 0 1 (Some 1); ex_ns true 1 1 (Some 1); ex_ns true 0 (1#2) None; ex_ns true 0 2 (Some 1)].
+Example C05_neigh_nonvacuous :
+  let t := {| C06.Model.t_coords := [0; 0]; C06.Model.t_code := None |} in
+  nkept ex_nsamples = [0; 2; 4]%nat /\
+  C06.Model.r_ranks (C06.Model.moving (fun _ _ => 0%nat) ex_np t ex_nsamples) = [2; 4]%nat /\
+  C06.Model.r_ranks (C06.Model.moving (fun _ _ => 0%nat) ex_np t (nreduce ex_nsamples)) = [1; 2]%nat.
+Proof. vm_compute. repeat split; reflexivity. Qed.
+
+(* variogram: 4 samples on a line, the second one masked: 3 pairs instead of 6, same result as on the 3 remaining samples *)
+Definition ex_vcf : C12.Model.cfg :=
+  {| C12.Model.c_calc := C12.Model.Vg; C12.Model.c_hasSel := true; C12.Model.c_hasW := false; C12.Model.c_dateLoop := false;
+     C12.Model.c_dateChk := false; C12.Model.c_nvar := 1 |}.
+Definition ex_vd : C12.Model.dirp :=
+  {| C12.Model.d_npas := 4; C12.Model.d_dpas := 1; C12.Model.d_tol := 1 # 2; C12.Model.d_psmin := 0; C12.Model.d_codir := [1];
+     C12.Model.d_bench := None; C12.Model.d_cyl := None; C12.Model.d_dmin := 0; C12.Model.d_dmax := 0 |}.
+Definition ex_vs (x : Q) (sel : bool) (z : Q) : C12.Model.sample :=
+  {| C12.Model.s_x := [x]; C12.Model.s_sel := sel; C12.Model.s_w := None; C12.Model.s_date := None; C12.Model.s_z := [Some z] |}.
+Definition ex_vl : list C12.Model.sample := [ex_vs 2 true 5; ex_vs 1 false 100; ex_vs 0 true 1; ex_vs 3 true 2].
+Example C05_vario_nonvacuous :
+  length (C12.Model.reached1 ex_vcf ex_vd ex_vl) = 3%nat /\ length (vreduce ex_vcf ex_vl) = 3%nat /\
+  length (C12.Model.reached1 (cfg_nosel ex_vcf) ex_vd ex_vl) = 6%nat /\
+  map (map C12.Model.o_sw) (C12.Model.solution1 ex_vcf ex_vd ex_vl) = [[0; 1; 1; 1]] /\
+  C12.Model.solution1 ex_vcf ex_vd ex_vl = C12.Model.solution1 ex_vcf ex_vd (vreduce ex_vcf ex_vl).
+Proof. vm_compute. repeat split; reflexivity. Qed.
